@@ -14,7 +14,7 @@ from .common import Failure, f2h, h2f, parse_reply, EXEC, OUT
 ID = "C04"
 BIN = "c04"
 PROOF_MODULES = ["Compute.Props.C04", "Compute.Lemmas.C04Kernels", "Compute.Lemmas.C04Rows", "Compute.Lemmas.C04Maps",
-                 "Compute.Lemmas.C04Reductions", "Compute.Lemmas.C04Real", "Compute.Lemmas.C04Powi"]
+                 "Compute.Lemmas.C04Reductions", "Compute.Lemmas.C04Real", "Compute.Lemmas.C04Powi", "Compute.Props.C04Review"]
 
 # ============================================================================ translator
 TOKS = {"+": "add", "-": "sub", "*": "mul", "/": "div", "+=": "add", "-=": "sub", "*=": "mul", "/=": "div"}
@@ -161,10 +161,81 @@ def impl_blocks(text, trait_names):
 
 def _argsrc(a):
     a = a.strip()
-    m = re.fullmatch(r"(?:&mut\s+|&)?(self|other)(\.data)?", a)
+    m = re.fullmatch(r"(?:&mut\s*|&)?(self|other)(\.data)?", a)
     if not m:
         raise ValueError("unexpected kernel argument %r" % a)
     return m.group(1), bool(m.group(2))
+
+
+def _nows(t):
+    return re.sub(r"\s+", "", t)
+
+
+def _lanes_regex(stmt, zip_expr=None):
+    """accepted spellings of the 8 lanes of one chunk, whitespace-free; stmt(i) = the statement for index expression i"""
+    e = re.escape
+    alts = [e("".join(stmt("idx" if k == 0 else "idx+%d" % k) for k in range(8))),                 # 8 literal lanes, in order
+            e("forlanein0..8{" + stmt("idx+lane") + "}"),                                            # lane loop
+            e("forlanein0..8{letat=idx+lane;" + stmt("at") + "}")]
+    if zip_expr is not None:                                                                         # zip over the block slices
+        alts.append(e("letblock=idx..idx+8;for(out,x)inv[block.clone()].iter_mut().zip(&v1[block]){*out=" + zip_expr + ";}"))
+    return "(?:" + "|".join(alts) + ")"
+
+
+def kernel_macro_regex(name):
+    """whitespace-free regex for the whole body of one `makefn_*!` macro (attributes removed)"""
+    e = re.escape
+    alloc = "letn=v1.len();letmutv=Vec::with_capacity(n);unsafe{v.set_len(n);}letchunks=(n-(n%8))/8;"
+    noalloc = "letn=v1.len();letchunks=(n-(n%8))/8;"
+
+    def chunk(stmt, zip_expr=None, braces=False):
+        r = e("foriin0..chunks{letidx=i*8;assert!(n>idx+7);") + _lanes_regex(stmt, zip_expr) + e("}")
+        return "(?:" + e("{") + r + e("}") + "|" + r + ")" if braces else r
+
+    def tail(stmt):
+        return e("forjin(chunks*8)..n{" + stmt("j") + "}")
+
+    if name == "makefn_vops_binary":
+        st = lambda i: "v[%s]=v1[%s]$opv2[%s];" % (i, i, i)
+        return e("pub(crate)fn$opname(v1:&[f64],v2:&[f64])->Vec<f64>{assert_eq!(v1.len(),v2.len());" + alloc) + chunk(st, None, True) + tail(st) + e("v}")
+    if name == "makefn_vops_binary_mut":
+        st = lambda i: "v1[%s]$opv2[%s];" % (i, i)
+        return e("pub(crate)fn$opname(v1:&mut[f64],v2:&[f64]){assert_eq!(v1.len(),v2.len());" + noalloc) + chunk(st) + tail(st) + e("}")
+    if name == "makefn_vops_unary":
+        st = lambda i: "v[%s]=v1[%s].$op();" % (i, i)
+        return e("pub(crate)fn$opname(v1:&[f64])->Vec<f64>{" + alloc) + chunk(st, "x.$op()") + tail(st) + e("v}")
+    if name == "makefn_vops_unary_with_arg_f":
+        st = lambda i: "v[%s]=v1[%s].$op(arg);" % (i, i)
+        return e("pub(crate)fn$opname(v1:&[f64],arg:$argtype)->Vec<f64>{" + alloc) + chunk(st, "x.$op(arg)") + tail(st) + e("v}")
+    if name == "makefn_vops_unary_with_arg_i":
+        st = lambda i: "v[%s]=v1[%s].$op(arg);" % (i, i)
+        s2 = lambda i: "v[%s]=v1[%s]*v1[%s];" % (i, i, i)
+        s3 = lambda i: "v[%s]=v1[%s]*v1[%s]*v1[%s];" % (i, i, i, i)
+        return (e("pub(crate)fn$opname(v1:&[f64],arg:$argtype)->Vec<f64>{" + alloc + "ifarg==2{") + chunk(s2) + e("}elseifarg==3{") + chunk(s3)
+                + e("}else{") + chunk(st) + e("}") + tail(st) + e("v}"))
+    if name == "makefn_vsops":
+        st = lambda i: "v[%s]=v1[%s]$opscalar;" % (i, i)
+        return e("pub(crate)fn$opname(v1:&[f64],scalar:f64)->Vec<f64>{" + alloc) + chunk(st, "x$opscalar") + tail(st) + e("v}")
+    if name == "makefn_vsops_mut":
+        st = lambda i: "v1[%s]$opscalar;" % i
+        return e("pub(crate)fn$opname(v1:&mut[f64],scalar:f64){" + noalloc) + chunk(st) + tail(st) + e("}")
+    if name == "makefn_svops":
+        st = lambda i: "v[%s]=scalar$opv1[%s];" % (i, i)
+        return e("pub(crate)fn$opname(scalar:f64,v1:&[f64])->Vec<f64>{" + alloc) + chunk(st, "scalar$opx") + tail(st) + e("v}")
+    raise KeyError(name)
+
+
+METHOD_OF = {"Add": "add", "Sub": "sub", "Mul": "mul", "Div": "div", "AddAssign": "add_assign", "SubAssign": "sub_assign",
+             "MulAssign": "mul_assign", "DivAssign": "div_assign"}
+_CALL = r"(?P<callee>[a-z]\w*)\((?P<args>[^()]*)\)"
+IMPL_TEMPLATES = [   # whitespace-free full bodies of one expanded `impl ops::Trait<Other> for Self { .. }`
+    ("vec", r"typeOutput=Vector;fn(?P<m>\w+)\(self,other:(?P<oty>[&\w]+)\)->Self::Output\{Vector\{v:" + _CALL + r"\}\}"),
+    ("bcast", r"typeOutput=Matrix;fn(?P<m>\w+)\(self,other:(?P<oty>[&\w]+)\)->Self::Output\{" + _CALL + r"\}"),
+    ("matnew", r"typeOutput=Matrix;fn(?P<m>\w+)\(self,other:(?P<oty>[&\w]+)\)->Self::Output\{Matrix::new\(" + _CALL
+               + r",(?P<sh>self|other)\.nrowsasi32,(?P=sh)\.ncolsasi32,?\)\}"),
+    ("assign", r"fn(?P<m>\w+)\(&mutself,other:(?P<oty>[&\w]+)\)\{" + _CALL + r";\}"),
+    ("assign_assert", r"fn(?P<m>\w+)\(&mutself,other:(?P<oty>[&\w]+)\)\{assert_eq!\(self\.shape\(\),other\.shape\(\),\"[^\"]*\"\);" + _CALL + r";\}"),
+]
 
 
 def extract_tables(repo):
@@ -185,59 +256,66 @@ def extract_tables(repo):
             kerns.append((a[0], fam, TOKS[a[1]], None))
     if len(kerns) != 4 * 5 + 29 + 2:
         raise ValueError("expected 51 kernels in vops.rs, found %d" % len(kerns))
-    # the macro bodies apply `$op` with the operand order of their family (checked textually)
+    # every kernel macro body is matched IN FULL (signature, allocation, chunk loop with each of its 8 lanes, tail loop, result)
+    # against the template the model of Model/Vops.lean was written from; see `kernel_macro_regex`.  Anything else is an alarm.
     vm = parse_macros(vops)
-    shape = {
-        "makefn_vops_binary": r"v\[idx \+ 3\] = v1\[idx \+ 3\] \$op v2\[idx \+ 3\];",
-        "makefn_vops_binary_mut": r"v1\[idx \+ 3\] \$op v2\[idx \+ 3\];",
-        "makefn_vops_unary": r"v\[idx \+ 3\] = v1\[idx \+ 3\]\.\$op\(\);",
-        "makefn_vops_unary_with_arg_i": r"v\[idx \+ 3\] = v1\[idx \+ 3\]\.\$op\(arg\);",
-        "makefn_vops_unary_with_arg_f": r"v\[idx \+ 3\] = v1\[idx \+ 3\]\.\$op\(arg\);",
-        "makefn_vsops": r"v\[idx \+ 3\] = v1\[idx \+ 3\] \$op scalar;",
-        "makefn_vsops_mut": r"v1\[idx \+ 3\] \$op scalar;",
-        "makefn_svops": r"v\[idx \+ 3\] = scalar \$op v1\[idx \+ 3\];",
-    }
-    for name, rx in shape.items():
+    for name in FAMS:
         if name not in vm:
             raise ValueError("kernel macro %s disappeared from vops.rs" % name)
-        if not re.search(rx, vm[name][1]):
-            # a textual convenience check only (the 8-way body may legitimately be spelled as a lane loop): the kernel's behaviour,
-            # operand order included, is tied bit for bit on every length by the correspondence run -> note, not an alarm
-            _DRIFT.append("kernel macro %s no longer contains the literal unrolled line the translator looks for "
-                          "(operand order of that family is then tied by the correspondence run only)" % name)
+        body = _nows(re.sub(r"#\[[^\]]*\]", "", vm[name][1]))
+        if not re.fullmatch(kernel_macro_regex(name), body):
+            raise ValueError("kernel macro %s: its body no longer matches the modelled template (8 lanes idx..idx+7 with the "
+                             "family's operand order, or the same statement in a `for lane in 0..8` / block-zip loop; tail loop "
+                             "`for j in (chunks * 8)..n`)" % name)
+    extra_macros = sorted(set(vm) - set(FAMS))
+    if extra_macros:
+        raise ValueError("vops.rs defines kernel macros the model does not know: %s" % ", ".join(extra_macros))
     kern_names = {k[0] for k in kerns}
 
     def op_rows(text, want_self):
         rows = []
-        for tr, slf, oth, body in impl_blocks(text, TRAITS):
+        blocks = impl_blocks(text, TRAITS)
+        loose = len(re.findall(r"\bimpl\b[^{;]*?\b(?:%s)\s*<" % "|".join(TRAITS), text))
+        if loose != len(blocks):
+            raise ValueError("%d `impl <ops trait><..>` headers but only %d have the plain form the translator reads" % (loose, len(blocks)))
+        for tr, slf, oth, body in blocks:
             if slf not in TYS or oth not in TYS:
-                continue
+                raise ValueError("impl %s<%s> for %s: operand type outside {Vector, &Vector, Matrix, &Matrix, f64}" % (tr, oth, slf))
             kinds = {TYS[slf].replace("Ref", ""), TYS[oth].replace("Ref", "")}
             if "vector" in kinds and "matrix" in kinds:
                 continue  # Matrix ∘ Vector broadcasting: property C12
             if want_self not in kinds:
+                if kinds == {"f64"}:
+                    raise ValueError("impl %s<%s> for %s in a container file" % (tr, oth, slf))
                 continue
-            calls = [(c.group(1), c.group(2)) for c in re.finditer(r"(?<![\w.:!])([a-z]\w*)\(([^()]*)\)", body)
-                     if c.group(1) in kern_names or c.group(1).startswith("broadcast_")]
-            if len(calls) != 1:
-                raise ValueError("impl %s<%s> for %s: expected one kernel call, got %r" % (tr, oth, slf, calls))
-            callee, argstr = calls[0]
-            a = split_args(argstr)
+            flat = _nows(body)
+            hits = [(k, m) for k, rx in IMPL_TEMPLATES for m in [re.fullmatch(rx, flat)] if m]
+            if len(hits) != 1:
+                raise ValueError("impl %s<%s> for %s: the body is not exactly one kernel call in one of the modelled wrappers "
+                                 "(`Vector { v: k(..) }`, `k(..)`, `Matrix::new(k(..), X.nrows as i32, X.ncols as i32)`, "
+                                 "`[assert_eq!(shapes);] k(..);`): %s" % (tr, oth, slf, flat[:160]))
+            kind, m = hits[0]
+            if m.group("m") != METHOD_OF[tr] or m.group("oty") != oth:
+                raise ValueError("impl %s<%s> for %s: method `%s(.., other: %s)` does not belong to the trait header" % (tr, oth, slf, m.group("m"), m.group("oty")))
+            callee = m.group("callee")
+            if not (callee in kern_names or callee.startswith("broadcast_")):
+                raise ValueError("impl %s<%s> for %s calls %s, which is neither a vops kernel nor a broadcast function" % (tr, oth, slf, callee))
+            assign = tr.endswith("Assign")
+            cont = "matrix" if "matrix" in kinds else "vector"
+            ok_kind = {("vector", False): ("vec",), ("vector", True): ("assign",),
+                       ("matrix", False): ("bcast", "matnew"), ("matrix", True): ("assign", "assign_assert")}[(cont, assign)]
+            if kind not in ok_kind or (kind == "bcast") != callee.startswith("broadcast_"):
+                raise ValueError("impl %s<%s> for %s: wrapper `%s` does not fit the operand kinds" % (tr, oth, slf, kind))
+            a = split_args(m.group("args"))
             if len(a) != 2:
                 raise ValueError("kernel call arity in impl %s<%s> for %s" % (tr, oth, slf))
             (s1, d1), (s2, d2) = _argsrc(a[0]), _argsrc(a[1])
-            for (s, dd) in ((s1, d1), (s2, d2)):
-                ty = slf if s == "self" else oth
+            for (s_, dd) in ((s1, d1), (s2, d2)):
+                ty = slf if s_ == "self" else oth
                 if dd != (ty in ("Matrix", "&Matrix")) and not callee.startswith("broadcast_"):
                     raise ValueError("`.data` projection mismatch in impl %s<%s> for %s" % (tr, oth, slf))
-            sm = re.search(r"Matrix::new\(.*?,\s*(self|other)\.nrows as i32,\s*(self|other)\.ncols as i32,?\s*\)", body, re.S)
-            shape_from = "none"
-            if sm:
-                if sm.group(1) != sm.group(2):
-                    raise ValueError("nrows/ncols taken from different operands")
-                shape_from = sm.group(1)
-            asserted = bool(re.search(r"assert_eq!\(self\.shape\(\), other\.shape\(\)", body))
-            rows.append((TRAITS[tr], TYS[slf], TYS[oth], callee, s1, s2, shape_from, asserted))
+            shape_from = m.group("sh") if kind == "matnew" else "none"
+            rows.append((TRAITS[tr], TYS[slf], TYS[oth], callee, s1, s2, shape_from, kind == "assign_assert"))
         return rows
 
     vec_x, _ = expand_file(vec_src)
@@ -250,9 +328,15 @@ def extract_tables(repo):
         raise ValueError("expected 44 Matrix operator impls, found %d" % len(mat_rows))
 
     # ---- negation
-    if not re.search(r"impl Neg for Vector \{.*?self\.v\.into_iter\(\)\.map\(\|x\| -x\)\.collect\(\)", vec_src, re.S):
+    def neg_body(src, ty):
+        ms = [m for m in re.finditer(r"impl\s+Neg\s+for\s+([&\w]+)\s*\{", src)]
+        if len(ms) != 1 or ms[0].group(1) != ty or len(re.findall(r"\bimpl\b[^{;]*\bNeg\b", src)) != 1:
+            raise ValueError("expected exactly one `impl Neg for %s`" % ty)
+        e_ = _match(src, ms[0].end() - 1, "{", "}")
+        return _nows(src[ms[0].end():e_ - 1])
+    if neg_body(_strip_comments(vec_src), "Vector") != "typeOutput=Self;fnneg(self)->Self::Output{self.v.into_iter().map(|x|-x).collect()}":
         raise ValueError("Neg for Vector changed")
-    if not re.search(r"impl Neg for Matrix \{.*?Matrix::new\(-self\.data, self\.nrows as i32, self\.ncols as i32\)", mat_src, re.S):
+    if neg_body(_strip_comments(mat_src), "Matrix") != "typeOutput=Self;fnneg(self)->Self::Output{Matrix::new(-self.data,self.nrowsasi32,self.ncolsasi32)}":
         raise ValueError("Neg for Matrix changed")
 
     # ---- unary maps
@@ -271,14 +355,39 @@ def extract_tables(repo):
     # ---- broadcast_op!(+, broadcast_add, matmatadd) ; makefn_matops!(matmatadd, vadd)
     bdefs = [(a[1], TOKS[a[0]], a[2]) for a in (split_args(m.group(1)) for m in re.finditer(r"^broadcast_op!\(([^)]*)\);", bc_src, re.M))]
     bm = parse_macros(bc_src)["broadcast_op"][1]
-    if not re.search(r"\[Broadcast::None, Broadcast::None\] => \{\s*assert_eq!\(m1\.shape\(\), m2\.shape\(\)\);\s*\$matmatfn\(m1, m2\)", bm):
+    if not re.search(r"\[Broadcast::None, Broadcast::None\] => \{\s*assert_eq!\(m1\.shape\(\), m2\.shape\(\)\);\s*\$matmatfn\(m1, m2\)\s*\}", bm):
         raise ValueError("broadcast_op! equal-shape arm changed")
     mmdefs = [tuple(split_args(m.group(1))) for m in re.finditer(r"^makefn_matops!\(([^)]*)\);", _strip_comments(mat_src), re.M)]
     mm = parse_macros(_strip_comments(mat_src))["makefn_matops"][1]
-    if not re.search(r"assert_eq!\(m1\.shape\(\), m2\.shape\(\), [^)]*\);\s*Matrix::new\(\s*\$innerfn\(&m1\.data, &m2\.data\),\s*m1\.nrows as i32,\s*m1\.ncols as i32,?\s*\)", mm):
+    if not re.fullmatch(r'pubfn\$fn\(m1:&Matrix,m2:&Matrix\)->Matrix\{assert_eq!\(m1\.shape\(\),m2\.shape\(\),"[^"]*"\);'
+                        r"Matrix::new\(\$innerfn\(&m1\.data,&m2\.data\),m1\.nrowsasi32,m1\.ncolsasi32,?\)\}", _nows(mm)):
         raise ValueError("makefn_matops! body changed")
     if len(bdefs) != 4 or len(mmdefs) != 4:
         raise ValueError("broadcast/matmat fan-out changed")
+    # ---- utils.rs `sum` / `dot` (the shared kernels Cv.sum8 / Cv.dot8): the default-feature block of each function is compared
+    # in full with the text the model was written from.  Their association decides the float result, so any other spelling is
+    # reported as a NOTE (tie by bit-exact correspondence only for that run), not silently accepted.
+    utils = _strip_comments(open(os.path.join(repo, "src", "linalg", "utils.rs")).read())
+
+    def default_block(fn_header):
+        m = re.search(fn_header, utils)
+        if not m:
+            return None
+        body = utils[m.end() - 1:_match(utils, m.end() - 1, "{", "}")]
+        b = re.search(r'#\[cfg\(not\(feature = "blas"\)\)\]\s*\{', body)
+        if not b:
+            return None
+        pre = _nows(body[1:b.start()])
+        pre = re.sub(r'#\[cfg\(feature="blas"\)\]\{.*?\}\}', "", pre)     # the BLAS alternative (off by default)
+        return pre + "|" + _nows(body[b.end() - 1:_match(body, b.end() - 1, "{", "}")])
+    want_sum = ("letn=x.len();|{letchunks=(n-(n%8))/8;letmuts=0.;foriin0..chunks{letidx=i*8;assert!(n>idx+7);s+="
+                + "+".join("x[idx%s]" % ("" if k == 0 else "+%d" % k) for k in range(8)) + ";}forjinx.iter().take(n).skip(chunks*8){s+=j;}s}")
+    want_dot = ("assert_eq!(x.len(),y.len());|{letn=x.len();letchunks=(n-(n%8))/8;letmuts=0.;foriin0..chunks{letidx=i*8;assert!(n>idx+7);s+="
+                + "+".join("x[idx%s]*y[idx%s]" % (("", "") if k == 0 else ("+%d" % k, "+%d" % k)) for k in range(8)) + ";}forjin(chunks*8)..n{s+=x[j]*y[j];}s}")
+    if default_block(r"pub fn sum\(x: &\[f64\]\) -> f64 \{") != want_sum:
+        _DRIFT.append("utils::sum is no longer spelled as the text Cv.sum8 was written from (8-term chunk sums added to s, then the tail)")
+    if default_block(r"pub fn dot\(x: &\[f64\], y: &\[f64\]\) -> f64 \{") != want_dot:
+        _DRIFT.append("utils::dot is no longer spelled as the text Cv.dot8 was written from (assert, 8-product chunk sums added to s, then the tail)")
     return dict(kerns=kerns, vec_rows=vec_rows, mat_rows=mat_rows, vec_maps=vec_maps, vec_argmaps=vec_argmaps,
                 mat_maps=mat_maps, mat_argmaps=mat_argmaps, bdefs=bdefs, mmdefs=mmdefs)
 
@@ -380,9 +489,11 @@ REQUIRED_THEOREMS = [
     "Cv.C04.sum8_eq_sum", "Cv.C04.dot8_eq_sum_mul", "Cv.C04.dot?_spec", "Cv.C04.prodL_eq_prod", "Cv.C04.normL_real",
     "Cv.C04.maxL_isGreatest", "Cv.C04.logsumexpL_real", "Cv.C04.logmeanexpL_real", "Cv.C04.shifted_bounds",
     "Cv.C04.infNormL_real", "Cv.C04.infNormL_panics", "Cv.C04.matInfNorm_real",
+    "Cv.C04.powi_two_of", "Cv.C04.powi_three_of", "Cv.C04.vpowi_eq_map_powi_of", "Cv.C04.vecMapI_eq_map_powi_of",
+    "Cv.C04.matMapI_eq_map_powi_of", "Cv.C04.matrix_op_mismatch",
 ]
-RULE = ("all lengths 0..40 x {4 operators x every Vector/Matrix operator form (owned/borrowed, vector, scalar-left, "
-        "scalar-right, assign), negation, 29 unary maps, powi (exponents 0,1,2,3,-1,-2,5,..), powf, 7 reductions}, "
+RULE = ("all lengths 0..40 x {4 operators x every one of the 11 operator forms of Vector and of Matrix (owned/borrowed, vector, "
+        "scalar-left, scalar-right, assign; all 11 in both tiers), negation, 29 unary maps, powi (exponents 0,1,2,3,-1,-2,5,..), powf, 7 reductions}, "
         "then random lengths up to 1e4; threshold-band strata: logsumexp/logmeanexp (free + Vector method) with maxima in "
         "[690, 709.78], in the underflow band [-745.2, -690], straddling +-709, lengths 1..300; map arguments at the "
         "overflow/underflow/tiny-argument thresholds of exp, exp2, exp_m1, ln_1p, sinh, cosh, ...; every special exponent of powf "
@@ -402,11 +513,27 @@ NOT_PROVED = [
     "Matrix op Matrix with different (broadcast-compatible) shapes is property C12; here only equal shapes and "
     "non-broadcastable mismatches",
     "logsumexp / logmeanexp theorems assume non-empty input without NaN (over the reals); inputs containing +inf or only "
-    "-inf return NaN in the implementation (inf - inf) and are outside the stated domain (finite log-domain inputs)",
+    "-inf return NaN in the implementation (inf - inf) and are outside the stated domain (finite log-domain inputs); "
+    "logsumexp(&[]) returns NaN (max of no element is NaN) where the definition gives ln 0 = -inf: FINDING PROPOSAL "
+    "key=red:logsumexp:empty (the oracle reports it as soon as the key is listed in known_findings.txt or the code is changed)",
+    "the correspondence between the Rust text of the impl / kernel-macro bodies and the hand-written model functions "
+    "(runKern2, vbin, vs, sv, ...) is a full-text template match in the translator plus the bit-exact run, not a "
+    "source-generated Lean definition proved equal to the model (the rs2lean translator covers logsumexp, logmeanexp, prod, "
+    "norm, is_matrix, inf_norm; dot and max are substituted by name there)",
 ]
 TRUSTED = [
-    "tools/cv/c04.py EXTRACT: textual macro_rules! expander + regexes producing Generated/C04Wiring.lean from vops.rs, vec.rs, "
-    "matrix.rs, broadcast.rs (raises when a macro body no longer has the modelled shape)",
+    "tools/cv/c04.py EXTRACT: textual macro_rules! expander producing Generated/C04Wiring.lean from vops.rs, vec.rs, matrix.rs, "
+    "broadcast.rs.  Every expanded `impl ops::..` body must match in full one of five wrapper templates around exactly one kernel "
+    "call, every operand type must be Vector/&Vector/Matrix/&Matrix/f64, every `makefn_*!` macro body must match in full the "
+    "template its model (Model/Vops.lean, runKern2 in Model/VecOps.lean: hand-written) was transcribed from - all 8 lanes in "
+    "order with the family operand order (literal lanes, a `for lane in 0..8` loop or a block-zip loop), chunk count, assert, "
+    "tail loop `(chunks*8)..n` - likewise Neg, makefn_matops! and the map methods; anything else is an extraction alarm "
+    "(VIOLATION).  That these templates mean what the model says is a reading of Rust text, not a proof; the behaviour is "
+    "additionally tied bit for bit at every length.  utils::sum / utils::dot: default-feature block compared in full with the "
+    "text Cv.sum8 / Cv.dot8 were written from (a different spelling is a NOTE: correspondence-only for that run); they are not "
+    "in the rs2lean translator table (index loops with 8-term accumulations), nor are the vops kernel macros",
+    "@[extern \"hypot\"] Cv.hypotF (Model/VopsScalar.lean) and @[extern \"log1p\"/\"expm1\"] (Model/Scalar.lean): the C functions of "
+    "the glibc both executables link; used only by the Float driver, never by a theorem",
     "element operators and scalar methods are IEEE/libm operations on f64, one per position (compared bit for bit with the "
     "Rust scalar call on every generated position)",
     "no request is implementation-only any more: asinh/acosh/atanh are tied through Rust std's formulas (std does not call "
@@ -417,7 +544,16 @@ TRUSTED = [
     "correctly rounded cube root (core-math port; checked exactly on 3e5 arguments), which the model computes exactly "
     "(0 differences on the same 10000170 arguments); sweeps: tools/cv/c04_sweep.py",
 ]
-ASSUMPTIONS = ["matrices are built through Matrix::new (data.len() == nrows*ncols); public fields are not corrupted by hand"]
+ASSUMPTIONS = [
+    "matrices are built through Matrix::new (data.len() == nrows*ncols); public fields are not corrupted by hand",
+    "provisos of the rounding theorems (Props/Rounding*.lean, owned by the lead) as they apply to f64: the standard model "
+    "fl(a op b) = (a op b)(1+d), |d| <= u holds only in the absence of overflow and (for * and /) underflow; sum8_error_pred "
+    "(gamma_(n-1)) and dot8_error (gamma_n) additionally need idempotent rounding (M.Idem) and representable inputs (Rep); "
+    "logsumexp_error / logmeanexp_error assume a relative-error exp (false for f64 once x - max < -745: the term underflows; only "
+    "f64_logsumexp_note with spread max - min <= 700 and n <= 10000 applies to f64 as stated) and do not cover overflow of "
+    "v - xmax for inputs near +-f64::MAX of opposite signs; the oracle ranges are chosen inside these provisos",
+    "logsumexp / logmeanexp: non-empty input without NaN and without infinities (see the finding proposal red:logsumexp:empty)",
+]
 OPS = ["add", "sub", "mul", "div"]
 MAPS = ["ln", "ln_1p", "log10", "log2", "exp", "exp2", "exp_m1", "sin", "cos", "tan", "sinh", "cosh", "tanh", "asin",
         "acos", "atan", "asinh", "acosh", "atanh", "sqrt", "cbrt", "abs", "floor", "ceil", "to_radians", "to_degrees",
@@ -842,6 +978,7 @@ def corpus():
         "powi 3 %s" % V([1.1 * i for i in range(1, 18)]), "scali 3 %s" % V([1.1 * i for i in range(1, 18)])[2:],
         "powi 2 %s" % V([1.1 * i for i in range(1, 8)]), "scali 2 %s" % V([1.1 * i for i in range(1, 8)])[2:],
         # log-sum-exp far outside the exp range
+        "red logsumexp free v 0", "red logsumexp meth v 0",     # finding proposal red:logsumexp:empty (NaN, definition: -inf)
         "red logsumexp free %s" % V([1e4, 1e4 - 1.0, -1e4]), "red logmeanexp meth %s" % V([-1e4, -1e4 + 2.0]),
         # sums of finite exponentials that overflow / underflow without the max-shift (seeded change C04d)
         "red logsumexp free %s" % V([708.9] * 3), "red logsumexp meth %s" % V([708.0] * 7), "red logsumexp free %s" % V([705.0] * 200),
@@ -861,7 +998,7 @@ def gen(rng, tier):
     quick = tier == "quick"
     for n in range(0, 41):
         lines += op_forms(rng, n, "v", OPS, cover, True)
-        lines += op_forms(rng, n, "m", OPS, cover, not quick or n % 8 in (0, 7))
+        lines += op_forms(rng, n, "m", OPS, cover, True)
         lines += ["neg " + V(data(rng, n)), "neg " + M(*shapes_of(n, rng), data(rng, n))]
         lines += mismatch_lines(rng, n, cover)
         lines += map_lines(rng, n, "v", MAPS, cover)
@@ -1036,6 +1173,16 @@ def note(name, err, bound):
             OBS[name] = r
 
 
+EMPTY_LSE_KEY = "red:logsumexp:empty"
+
+
+def EMPTY_LSE_REPORTED():
+    """finding proposal (review B6): reported once the lead has listed the key (then it prints KNOWN-FINDING), so that the
+    proposal does not turn every run into a VIOLATION before the decision; a code fix returning -inf passes either way"""
+    from .common import load_known
+    return EMPTY_LSE_KEY in load_known(ID)
+
+
 def check_reduction(name, xs, got_tok, n_nominal=None):
     """-> None if fine, else message.  Worst-case bounds of the standard model of floating-point arithmetic
     (Higham, Accuracy and Stability, §3-4), valid for every summation order."""
@@ -1126,6 +1273,8 @@ def check_reduction(name, xs, got_tok, n_nominal=None):
         note("prod", err, bound)
         return None if err <= bound else "|prod - exact| / |exact| = %.3e exceeds gamma_n (n=%d)" % (float(err / abs(exact)), n)
     if name in ("logsumexp", "logmeanexp"):
+        if n == 0 and name == "logsumexp" and got_tok != f2h(-INF) and EMPTY_LSE_REPORTED():
+            return "logsumexp of the empty slice is %s; the definition ln(sum over no element) = ln 0 gives -inf" % got_tok
         if n == 0 or not finite(xs):
             return None
         import mpmath
@@ -1294,6 +1443,8 @@ def oracle(lines, impl):
             name = t[1]
             ka, sha, da, j = parse_operand(t, 3)
             key = "red:%s:%s:n%d" % (name, t[2], len(da))
+            if name == "logsumexp" and len(da) == 0:
+                key = EMPTY_LSE_KEY
             if ka == "bad":
                 continue
             if st != "ok":
